@@ -210,7 +210,7 @@ COLLECTOR_HASH_DOCS = (
 APIS = ("exists", "required", "optional-existing")
 
 
-def purity_case(data, s0, path_text, log):
+def purity_case(data, s0, path_text, log, known_existing=False):
     """Run the three read calls.  -> (failures [(key, observed)], info, mutated?)"""
     from yamlpath import Processor
     from yamlpath.exceptions import YAMLPathException
@@ -225,7 +225,9 @@ def purity_case(data, s0, path_text, log):
         if cclass is None:
             cclass = collector_class(path_text)
         d = diff_class(s0, s1)
-        if api == "optional-existing" and d in ("key-added", "seq-grew", "set-member-added"):
+        if api == "optional-existing" and known_existing and not found:
+            d = "existing-node-not-matched-then-created"   # nothing is missing anywhere: the one named node exists
+        elif api == "optional-existing" and d in ("key-added", "seq-grew", "set-member-added"):
             d = "missing-branch-created"       # the path matches somewhere, a sibling branch lacked it
         failures.append(("C09/purity/%s/%s/%s" % (api, d, cclass),
                          "after %s: %r" % (api, gen.plain(data))))
@@ -250,7 +252,7 @@ def purity_case(data, s0, path_text, log):
         info["exc"].append("required:crash:" + type(e).__name__)
     if after("required"):
         return failures, info
-    if found:
+    if found or known_existing:      # known_existing: the path names an existing node by construction
         try:
             info["nopt"] = sum(1 for _ in proc.get_nodes(path_text, mustexist=False))
         except YAMLPathException as e:
@@ -281,6 +283,26 @@ def _purity_paths(item):
         yield p
 
 
+def _purity_texts(item):
+    """-> (path shape, notation, path text): generated segment lists in both notations, then the item's literal texts"""
+    for segs in _purity_paths(item):
+        pshape = _pshape(segs)
+        for sep in (".", "/"):
+            yield pshape, sep, pathgen.render(segs, sep)
+    for ptext in item.get("texts", ()):
+        yield "literal:" + ptext, "/" if ptext.startswith("/") else ".", ptext
+
+
+# Anchor names holding a character the path notation escapes (legal YAML, e.g. &build.v1): the path the library itself
+# reports for such a match spells the name with the escape (r[&b\.v]); both spellings name the existing node.
+ESC_ANCHOR_DOCS = (
+    ("{r: [&b.v {a: 1}, {a: 2}], c: *b.v}", ("r[&b.v]", "r[&b\\.v]", "r[&b\\.v].a", "/r[&b.v]", "/r[&b.v]/a", "**[&b\\.v]")),
+    ("[&b.v a, b]", ("&b\\.v", "[&b.v]", "[&b\\.v]", "/&b.v", "/[&b\\.v]")),
+    ("{k: &x/y [1], j: *x/y}", ("[&x/y]", "/[&x\\/y]", "/&x\\/y", "[&x/y][0]")),
+    ("[[&b.v 1, 2], [3]]", ("[0][&b\\.v]", "[0][&b.v]", "/[0][&b.v]", "*[&b\\.v]")),
+)
+
+
 def _work_purity(chunk):
     col = Collector()
     log = gen.quiet_logger()
@@ -292,34 +314,32 @@ def _work_purity(chunk):
             continue
         s0 = snap(data)
         shape = c02.doc_shape(data)
-        for segs in _purity_paths(item):
-            pshape = _pshape(segs)
-            for sep in (".", "/"):
-                ptext = pathgen.render(segs, sep)
-                failures, info = purity_case(data, s0, ptext, log)
-                if failures:
-                    # the loaded copy is spoiled: confirm on a fresh load (= replay) and go on with a fresh copy
+        for pshape, sep, ptext in _purity_texts(item):
+            known = pshape.startswith("literal:")
+            failures, info = purity_case(data, s0, ptext, log, known)
+            if failures:
+                # the loaded copy is spoiled: confirm on a fresh load (= replay) and go on with a fresh copy
+                data = gen.load(text)
+                s0 = snap(data)
+                fresh, _ = purity_case(data, s0, ptext, log, known)
+                for f in failures:
+                    if f[0] not in {g[0] for g in fresh}:
+                        col.out_of_scope("not-reproduced-on-fresh-load:" + f[0])
+                failures = fresh
+                if fresh:
                     data = gen.load(text)
                     s0 = snap(data)
-                    fresh, _ = purity_case(data, s0, ptext, log)
-                    for f in failures:
-                        if f[0] not in {g[0] for g in fresh}:
-                            col.out_of_scope("not-reproduced-on-fresh-load:" + f[0])
-                    failures = fresh
-                    if fresh:
-                        data = gen.load(text)
-                        s0 = snap(data)
-                nontrivial = bool(info["n"] or info["exists"] or [e for e in info["exc"] if "Unmatched" not in e])
-                sig = stable_hash([shape, pshape, sep, info["exists"], min(info["n"], 3), sorted(info["exc"]),
-                                   sorted(f[0] for f in failures)]) if nontrivial else None
-                col.case(sig, {"yaml": text, "path": ptext, "exists": info["exists"], "results": info["n"]}
-                         if nontrivial and info["n"] else None)
-                for e in info["exc"]:
-                    if "crash" in e:
-                        col.out_of_scope("C15:" + e)
-                for key, observed in failures:
-                    col.witness(key, PURITY_WHAT, {"part": "purity", "yaml": text, "path": ptext, "key": key},
-                                observed, PURITY_EXPECT)
+            nontrivial = bool(info["n"] or info["exists"] or [e for e in info["exc"] if "Unmatched" not in e])
+            sig = stable_hash([shape, pshape, sep, info["exists"], min(info["n"], 3), sorted(info["exc"]),
+                               sorted(f[0] for f in failures)]) if nontrivial else None
+            col.case(sig, {"yaml": text, "path": ptext, "exists": info["exists"], "results": info["n"]}
+                     if nontrivial and info["n"] else None)
+            for e in info["exc"]:
+                if "crash" in e:
+                    col.out_of_scope("C15:" + e)
+            for key, observed in failures:
+                col.witness(key, PURITY_WHAT, {"part": "purity", "yaml": text, "path": ptext, "key": key, "known_existing": known},
+                            observed, PURITY_EXPECT)
     return col.result(internal=True)
 
 
@@ -695,6 +715,9 @@ def _items(tier, seed):
     for y in c02.ANCHOR_DOCS:
         addp(None, "all2" if not quick else "sample", n=300, yaml=y, alphabet=("a", "b", "c", "k", "zz"),
              anchors=c02.ANCHOR_NAMES)
+    for y, texts in ESC_ANCHOR_DOCS:
+        addp(None, "sample", n=0, yaml=y, alphabet=("a", "r"), anchors=())
+        purity[-1]["texts"] = texts
     pool = c02.KEYS_DEFAULT + ("c", 2, "k e", "a/b")
     for _ in range(cfg["random_docs"]):
         t = gen.random_tree(rng, max_nodes=14, max_depth=5, keys=tuple(rng.sample(pool, 5)), scalars=gen.SCALARS_FULL)
@@ -771,7 +794,7 @@ def replay(inp):
         data = gen.load(inp["yaml"])
         if data is None:
             return None
-        failures, _ = purity_case(data, snap(data), inp["path"], gen.quiet_logger())
+        failures, _ = purity_case(data, snap(data), inp["path"], gen.quiet_logger(), inp.get("known_existing", False))
         fl = [(k, PURITY_WHAT, o, PURITY_EXPECT) for k, o in failures]
     if not fl:
         return None
